@@ -251,10 +251,18 @@ func (e *env) fixture(ti *pipelinex.TypeInfo, name string, minSize int) string {
 	return p
 }
 
+// useAlt selects the type's alternative signer options (page hashes, sections-only, ...) for the calls that follow
+var useAlt bool
+
 func baseQuery(ti *pipelinex.TypeInfo) url.Values {
 	q := url.Values{}
 	for a, b := range ti.Query {
 		q.Set(a, b)
+	}
+	if useAlt {
+		for a, b := range pipelinex.AltQuery[ti.Name] {
+			q.Set(a, b)
+		}
 	}
 	return q
 }
@@ -485,8 +493,23 @@ func SplitSign(args []string) {
 	rnd := rand.New(rand.NewSource(seed()))
 	pats := splitPatterns(rnd, deep)
 	ki := e.w.Keys["rsa2048"]
+	type variant struct {
+		ti  pipelinex.TypeInfo
+		alt bool
+	}
+	var vs []variant
 	for _, ti := range pipelinex.Types {
-		ti := ti
+		vs = append(vs, variant{ti, false})
+		if len(pipelinex.AltQuery[ti.Name]) > 0 {
+			vs = append(vs, variant{ti, true})
+		}
+	}
+	for _, v := range vs {
+		ti := v.ti
+		useAlt = v.alt
+		if v.alt {
+			r.Count("alt_option_sets", 1)
+		}
 		stable, err := e.stableDigests(&ti, "split-"+ti.Name, 0)
 		if err != nil {
 			r.Note("%s: baseline: %v", ti.Name, err)
@@ -503,7 +526,10 @@ func SplitSign(args []string) {
 			in := e.fixture(&ti, fmt.Sprintf("split-%s-%d", ti.Name, pi), 0)
 			out, err := e.standalone(&ti, in, func(s io.Reader) io.Reader { return &splitReader{r: s, pattern: pat} })
 			key := map[string]string{"engine": "splitsign", "type": ti.Name}
-			rep := map[string]any{"type": ti.Name, "pattern": pat}
+			rep := map[string]any{"type": ti.Name, "pattern": pat, "alt": v.alt}
+			if v.alt {
+				key["options"] = "alt"
+			}
 			r.Eval(true)
 			if err != nil {
 				key["kind"] = "split-sign-fails"
@@ -518,8 +544,11 @@ func SplitSign(args []string) {
 			os.Remove(out)
 			os.Remove(in)
 		}
-		r.Count("types_split", 1)
+		if !v.alt {
+			r.Count("types_split", 1)
+		}
 	}
+	useAlt = false
 	r.Extra["patterns"] = len(pats)
 	r.Emit()
 }
@@ -828,15 +857,25 @@ func Replay(args []string) {
 	ki := e.w.Keys["rsa2048"]
 	stable := map[string]map[string]bool{}
 	for _, tn := range transportTypes {
-		st, err := e.stableDigests(pipelinex.TypeByName(tn), "tr-"+tn, 0)
-		if err != nil {
-			panic(fmt.Sprintf("%s baseline: %v", tn, err))
+		for _, alt := range []bool{false, true} {
+			if alt && len(pipelinex.AltQuery[tn]) == 0 {
+				continue
+			}
+			useAlt = alt
+			st, err := e.stableDigests(pipelinex.TypeByName(tn), "tr-"+tn, 0)
+			if err != nil {
+				panic(fmt.Sprintf("%s baseline: %v", tn, err))
+			}
+			stable[fmt.Sprint(tn, alt)] = st
 		}
-		stable[tn] = st
 	}
 	for ci, b := range behs {
 		tn := transportTypes[(ci+int(seed()))%len(transportTypes)]
 		ti := pipelinex.TypeByName(tn)
+		useAlt = len(pipelinex.AltQuery[tn]) > 0 && (ci/len(transportTypes))%2 == 1
+		if useAlt {
+			r.Count("alt_option_requests", 1)
+		}
 		var script []string
 		for _, l := range b.Log {
 			if l.Resp != "refused" {
@@ -851,7 +890,7 @@ func Replay(args []string) {
 		quiet(func() { out, h0, err = e.remoteSign(ti, in) })
 		got := f.taken()
 		key := map[string]string{"engine": "transport", "type": tn}
-		rep := map[string]any{"behaviour": b, "type": tn}
+		rep := map[string]any{"behaviour": b, "type": tn, "alt": useAlt}
 		r.Eval(len(b.Log) > 1)
 		// (1) the attempts the servers saw are those of the model, in order, with the model's encodings
 		var want []logRec
@@ -895,7 +934,7 @@ func Replay(args []string) {
 				if verr := e.w.VerifyFile(ti, ki, out, in); verr != nil {
 					key["kind"] = "remote-unverifiable"
 					r.Fail(key, rep, "%s: signed through %v with %s: the verifier rejects the result: %v", tn, script, b.Offered, verr)
-				} else if miss := missing(stable[tn], out, tn); len(miss) > 0 {
+				} else if miss := missing(stable[fmt.Sprint(tn, useAlt)], out, tn); len(miss) > 0 {
 					key["kind"] = "remote-digest-differs"
 					r.Fail(key, rep, "%s: signed through %v with %s: embedded digests %v of the standalone run are absent", tn, script, b.Offered, miss)
 				}
